@@ -41,6 +41,7 @@ type sessLog struct {
 	lastLocal int
 	nrecv     int
 	ntimer    int
+	lastIn    time.Time // when the last accepted packet was handed to ReceiveMessage (zero = not tracked)
 	cond      *sync.Cond
 }
 
@@ -78,7 +79,13 @@ func tracer(s *bfd.Session, ev bfd.VerifEvent) {
 			"your": l.abs(ev.MsgYourDisc), "local": ev.Local, "remote": ev.Remote, "rdisc": l.abs(ev.RemoteDisc)})
 		l.nrecv++
 	case "timer":
-		l.evs = append(l.evs, vt.M{"ev": "timer", "local": ev.Local, "remote": ev.Remote, "rdisc": l.abs(ev.RemoteDisc)})
+		// el: ms between handing the last accepted packet to ReceiveMessage (taken before the call, i.e.
+		// before the detection timer was re-armed) and this expiry; -1 where the driver does not track it
+		el := -1
+		if !l.lastIn.IsZero() {
+			el = int(time.Since(l.lastIn) / time.Millisecond)
+		}
+		l.evs = append(l.evs, vt.M{"ev": "timer", "local": ev.Local, "remote": ev.Remote, "rdisc": l.abs(ev.RemoteDisc), "el": el})
 		l.ntimer++
 	case "send":
 		l.evs = append(l.evs, vt.M{"ev": "send", "state": ev.MsgState, "my": l.abs(ev.MsgMyDisc),
@@ -109,7 +116,7 @@ func (l *sessLog) waitFor(pred func() bool, d time.Duration) bool {
 func pktRecord(l *sessLog, p *layers.BFD) vt.M {
 	return vt.M{"ev": "pkt", "ver": int(p.Version), "mult": int(p.DetectMultiplier), "multipoint": p.Multipoint,
 		"my": l.abs(uint32(p.MyDiscriminator)), "your": l.abs(uint32(p.YourDiscriminator)), "state": int(p.State),
-		"auth": p.AuthPresent, "poll": p.Poll, "final": p.Final, "echo": p.RequiredMinEchoRxInterval != 0,
+		"dtxms": int(p.DesiredMinTxInterval / 1000), "auth": p.AuthPresent, "poll": p.Poll, "final": p.Final, "echo": p.RequiredMinEchoRxInterval != 0,
 		"demand": p.Demand, "discard": bfd.VerifShouldDiscard(p)}
 }
 
@@ -120,7 +127,7 @@ func (nullSender) Send(*layers.BFD) error { return nil }
 // ---------------------------------------------------------------------------------- table
 
 func table(w *vt.Writer) {
-	w.Emit(vt.M{"ev": "reset", "kind": "table", "id": 0})
+	w.Emit(vt.M{"ev": "reset", "kind": "table", "id": 0, "rxms": 0, "lmult": 0})
 	for st := 0; st <= 4; st++ {
 		for e := 0; e <= 6; e++ {
 			next, panicked := -1, false
@@ -149,6 +156,13 @@ type sym struct {
 	multipoint bool
 	poll       bool
 	expire     bool // short detection time, then wait for the expiry
+	dtxms      int  // expire: Desired Min TX Interval of the packet in ms (0 = 1 ms)
+}
+
+// scfg is the configuration of the session under test in a history.
+type scfg struct {
+	lmult int // local Detect Mult
+	rxms  int // local Required Min RX Interval
 }
 
 func alphabet() []sym {
@@ -166,6 +180,28 @@ func alphabet() []sym {
 	return a
 }
 
+func bfdDur(x layers.BFDTimeInterval) time.Duration { return time.Duration(x) * time.Microsecond }
+
+// timed histories: the session is brought Up, then one packet announces a detection time
+// (its Detect Mult x max(local Required Min RX, its Desired Min TX)) that differs by a factor >= 2
+// from what other combinations of the local and remote parameters would give; then silence.
+func timedHistories() (hs [][]sym, cfgs []scfg) {
+	up := []sym{{state: 1, your: 0, my: 2, mult: 3, ver: 1}, {state: 3, your: 1, my: 2, mult: 3, ver: 1}}
+	add := func(c scfg, last sym) {
+		hs = append(hs, append(append([]sym{}, up...), last))
+		cfgs = append(cfgs, c)
+	}
+	// remote mult 3 > local mult 1, 300 ms: 900 ms (a local-mult reading gives 300 ms)
+	add(scfg{lmult: 1, rxms: 2}, sym{state: 3, your: 1, my: 2, mult: 3, ver: 1, expire: true, dtxms: 300})
+	// remote mult 1 < local mult 3, 3 s: 3 s (a local-mult reading gives 9 s)
+	add(scfg{lmult: 3, rxms: 2}, sym{state: 3, your: 1, my: 2, mult: 1, ver: 1, expire: true, dtxms: 3000})
+	// the local Required Min RX dominates: 2 x 400 ms (ignoring it gives 2 ms)
+	add(scfg{lmult: 5, rxms: 400}, sym{state: 3, your: 1, my: 2, mult: 2, ver: 1, expire: true, dtxms: 1})
+	// the remote Desired Min TX dominates: 2 x 250 ms (ignoring it gives 40 ms)
+	add(scfg{lmult: 2, rxms: 20}, sym{state: 2, your: 1, my: 2, mult: 2, ver: 1, expire: true, dtxms: 250})
+	return
+}
+
 func concrete(abs int, own, peer uint32) layers.BFDDiscriminator {
 	switch abs {
 	case 0:
@@ -178,11 +214,11 @@ func concrete(abs int, own, peer uint32) layers.BFDDiscriminator {
 	return discOther
 }
 
-func runHistory(id int, h []sym) []vt.M {
+func runHistory(id int, h []sym, cfg scfg) []vt.M {
 	const own, peer = 0x1111, 0x2222
 	l := newLog(own, peer)
-	s := &bfd.Session{Sender: nullSender{}, LocalDiscriminator: own, DetectMult: 3,
-		DesiredMinTxInterval: 3 * time.Millisecond, RequiredMinRxInterval: 2 * time.Millisecond}
+	s := &bfd.Session{Sender: nullSender{}, LocalDiscriminator: own, DetectMult: layers.BFDDetectMultiplier(cfg.lmult),
+		DesiredMinTxInterval: 3 * time.Millisecond, RequiredMinRxInterval: time.Duration(cfg.rxms) * time.Millisecond}
 	logs.Store(s, l)
 	defer logs.Delete(s)
 	done := make(chan error, 1)
@@ -193,13 +229,19 @@ func runHistory(id int, h []sym) []vt.M {
 			MyDiscriminator: concrete(x.my, own, peer), YourDiscriminator: concrete(x.your, own, peer),
 			DesiredMinTxInterval: never, RequiredMinRxInterval: 1000}
 		if x.expire {
-			p.DesiredMinTxInterval = 1000 // detection time = 1 x max(2 ms, 1 ms)
+			p.DesiredMinTxInterval = 1000 // 1 ms: with mult 1 and a local 2 ms the detection time is 2 ms
+			if x.dtxms > 0 {
+				p.DesiredMinTxInterval = layers.BFDTimeInterval(1000 * x.dtxms)
+			}
 		}
 		l.mu.Lock()
 		rec := pktRecord(l, p)
 		l.evs = append(l.evs, rec)
 		want := l.nrecv + 1
 		timers := l.ntimer
+		if !rec["discard"].(bool) {
+			l.lastIn = time.Now()
+		}
 		l.mu.Unlock()
 		s.ReceiveMessage(p)
 		if rec["discard"].(bool) {
@@ -212,8 +254,10 @@ func runHistory(id int, h []sym) []vt.M {
 			break
 		}
 		if x.expire {
-			// nothing is sent to the session until its detection time (2 ms) has expired; the margin is 10 s
-			if !l.waitFor(func() bool { return l.ntimer > timers }, 10*time.Second) {
+			// nothing is sent to the session until its detection time has expired; the driver waits for
+			// the detection time announced by the packet plus 10 s
+			det := time.Duration(x.mult) * max(time.Duration(cfg.rxms)*time.Millisecond, bfdDur(p.DesiredMinTxInterval))
+			if !l.waitFor(func() bool { return l.ntimer > timers }, det+10*time.Second) {
 				l.mu.Lock()
 				l.evs = append(l.evs, vt.M{"ev": "notimer"})
 				l.mu.Unlock()
@@ -224,7 +268,7 @@ func runHistory(id int, h []sym) []vt.M {
 	<-done
 	l.mu.Lock()
 	defer l.mu.Unlock()
-	out := []vt.M{{"ev": "reset", "kind": "session", "id": id}}
+	out := []vt.M{{"ev": "reset", "kind": "session", "id": id, "rxms": cfg.rxms, "lmult": cfg.lmult}}
 	return append(out, l.evs...)
 }
 
@@ -371,10 +415,185 @@ func runPair(id int, rng *rand.Rand, chaos time.Duration) [][]vt.M {
 	dump := func(l *sessLog, sub int) []vt.M {
 		l.mu.Lock()
 		defer l.mu.Unlock()
-		out := []vt.M{{"ev": "reset", "kind": "pair", "id": id*2 + sub}}
+		out := []vt.M{{"ev": "reset", "kind": "pair", "id": id*2 + sub, "rxms": 50, "lmult": 8}}
 		return append(out, l.evs...)
 	}
 	return [][]vt.M{dump(la, 0), dump(lb, 1)}
+}
+
+// ---------------------------------------------------------------------------------- RFC peer
+
+// rfcPeer is the environment of a real Session in the "rfcpeer" scenarios: a well-behaved RFC 5880
+// implementation written from section 6.8.6 (not from router/bfd): it selects its session by a non-zero
+// Your Discriminator (packets carrying another one are discarded), learns bfd.RemoteDiscr from every
+// accepted packet, sends once per second while not Up and every 100 ms while Up.
+type rfcPeer struct {
+	mu     sync.Mutex
+	state  int
+	disc   uint32
+	rd     uint32
+	lastRx time.Time
+	det    time.Duration
+	dst    *bfd.Session
+	dlog   *sessLog
+	stop   chan struct{}
+	done   chan struct{}
+}
+
+// Send is the link from the session under test to the peer.
+func (p *rfcPeer) Send(pkt *layers.BFD) error {
+	p.mu.Lock()
+	defer p.mu.Unlock()
+	my, your, st := uint32(pkt.MyDiscriminator), uint32(pkt.YourDiscriminator), int(pkt.State)
+	if pkt.Version != 1 || pkt.DetectMultiplier == 0 || pkt.Multipoint || my == 0 {
+		return nil
+	}
+	if your != 0 && your != p.disc { // no session with that discriminator
+		return nil
+	}
+	if your == 0 && st != 1 && st != 0 {
+		return nil
+	}
+	p.rd = my
+	p.lastRx = time.Now()
+	p.det = time.Duration(pkt.DetectMultiplier) * max(100*time.Millisecond, bfdDur(pkt.DesiredMinTxInterval))
+	switch {
+	case st == 0: // AdminDown
+		if p.state != 1 {
+			p.state = 1
+		}
+	case p.state == 1 && st == 1:
+		p.state = 2
+	case p.state == 1 && st == 2:
+		p.state = 3
+	case p.state == 2 && (st == 2 || st == 3):
+		p.state = 3
+	case p.state == 3 && st == 1:
+		p.state = 1
+	}
+	return nil
+}
+
+func (p *rfcPeer) run() {
+	defer close(p.done)
+	next := time.Now()
+	for {
+		select {
+		case <-p.stop:
+			return
+		case <-time.After(10 * time.Millisecond):
+		}
+		p.mu.Lock()
+		if p.state >= 2 && !p.lastRx.IsZero() && time.Since(p.lastRx) > p.det {
+			p.state, p.rd = 1, 0
+		}
+		if time.Now().Before(next) {
+			p.mu.Unlock()
+			continue
+		}
+		tx := layers.BFDTimeInterval(1_000_000)
+		if p.state == 3 {
+			tx = 100_000
+		}
+		next = time.Now().Add(bfdDur(tx) * 9 / 10)
+		pkt := &layers.BFD{Version: 1, State: layers.BFDState(p.state), DetectMultiplier: 5,
+			MyDiscriminator: layers.BFDDiscriminator(p.disc), YourDiscriminator: layers.BFDDiscriminator(p.rd),
+			DesiredMinTxInterval: tx, RequiredMinRxInterval: 100_000}
+		p.mu.Unlock()
+		p.dlog.mu.Lock()
+		p.dlog.evs = append(p.dlog.evs, pktRecord(p.dlog, pkt))
+		p.dlog.mu.Unlock()
+		p.dst.ReceiveMessage(pkt)
+	}
+}
+
+func (p *rfcPeer) halt() { close(p.stop); <-p.done }
+
+// swapSender lets a scenario replace the peer behind the session's Sender.
+type swapSender struct {
+	mu sync.Mutex
+	to bfd.Sender
+}
+
+func (w *swapSender) Send(p *layers.BFD) error {
+	w.mu.Lock()
+	to := w.to
+	w.mu.Unlock()
+	if to == nil {
+		return nil
+	}
+	return to.Send(p)
+}
+
+// runRfcPeer: scenario 0 = undisturbed; 1 = before the peer appears the session receives one packet
+// with a My Discriminator nobody owns; 2 = the session comes Up with a first peer, which is then
+// replaced by a freshly started one with a new discriminator (a restart).
+func runRfcPeer(id, scenario int) []vt.M {
+	const own, d1, d2 = 0x5151, 0x6161, 0x7171
+	l := newLog(own, d1)
+	sw := &swapSender{}
+	s := &bfd.Session{Sender: sw, LocalDiscriminator: own, DetectMult: 8, ReceiveQueueSize: 10,
+		DesiredMinTxInterval: 50 * time.Millisecond, RequiredMinRxInterval: 50 * time.Millisecond}
+	logs.Store(s, l)
+	defer logs.Delete(s)
+	done := make(chan error, 1)
+	go func() { done <- s.Run(context.Background()) }()
+	mkPeer := func(d uint32) *rfcPeer {
+		p := &rfcPeer{state: 1, disc: d, dst: s, dlog: l, stop: make(chan struct{}), done: make(chan struct{})}
+		sw.mu.Lock()
+		sw.to = p
+		sw.mu.Unlock()
+		go p.run()
+		return p
+	}
+	up := func() bool { l.mu.Lock(); defer l.mu.Unlock(); return l.lastLocal == 3 }
+	waitUp := func(d time.Duration) {
+		deadline := time.Now().Add(d)
+		for time.Now().Before(deadline) && !up() {
+			time.Sleep(5 * time.Millisecond)
+		}
+	}
+	var peer *rfcPeer
+	switch scenario {
+	case 1:
+		spoof := &layers.BFD{Version: 1, State: 1, DetectMultiplier: 3, MyDiscriminator: discOther,
+			DesiredMinTxInterval: 1_000_000, RequiredMinRxInterval: 100_000}
+		l.mu.Lock()
+		l.evs = append(l.evs, pktRecord(l, spoof))
+		want := l.nrecv + 1
+		l.mu.Unlock()
+		s.ReceiveMessage(spoof)
+		l.waitFor(func() bool { return l.nrecv >= want }, 20*time.Second)
+		peer = mkPeer(d1)
+	case 2:
+		first := mkPeer(d1)
+		waitUp(30 * time.Second)
+		first.halt()
+		peer = mkPeer(d2)
+		// the restarted peer reports Down: wait until the session has noticed (left Up)
+		deadline := time.Now().Add(30 * time.Second)
+		for time.Now().Before(deadline) && up() {
+			time.Sleep(5 * time.Millisecond)
+		}
+	default:
+		peer = mkPeer(d1)
+	}
+	l.mu.Lock()
+	l.evs = append(l.evs, vt.M{"ev": "quiet"})
+	l.mu.Unlock()
+	// the peer is well-behaved and the link lossless from here on; the protocol needs a few seconds
+	// (sessions that are not Up send once per second); the driver waits up to 30 s
+	waitUp(30 * time.Second)
+	l.mu.Lock()
+	l.evs = append(l.evs, vt.M{"ev": "settle", "up": l.lastLocal == 3, "local": l.lastLocal, "isup": s.IsUp()})
+	l.mu.Unlock()
+	peer.halt()
+	_ = s.Close()
+	<-done
+	l.mu.Lock()
+	defer l.mu.Unlock()
+	out := []vt.M{{"ev": "reset", "kind": "rfcpeer", "id": id, "rxms": 50, "lmult": 8}}
+	return append(out, l.evs...)
 }
 
 // ---------------------------------------------------------------------------------- main
@@ -394,6 +613,7 @@ func main() {
 	// histories: complete up to maxLen, then seeded long ones
 	alpha := alphabet()
 	var hs [][]sym
+	var cfgs []scfg
 	var gen func(prefix []sym, n int)
 	gen = func(prefix []sym, n int) {
 		if len(prefix) > 0 {
@@ -407,6 +627,12 @@ func main() {
 		}
 	}
 	gen(nil, *maxLen)
+	for range hs {
+		cfgs = append(cfgs, scfg{lmult: 3, rxms: 2})
+	}
+	th, tc := timedHistories()
+	hs = append(hs, th...)
+	cfgs = append(cfgs, tc...)
 	rng := vt.Rand(16)
 	for i := 0; i < *nrand; i++ {
 		n := 5 + rng.Intn(25)
@@ -416,9 +642,13 @@ func main() {
 			if h[j].expire && rng.Intn(3) != 0 { // keep most long histories fast
 				h[j].expire = false
 				h[j].mult = 3
+			} else if h[j].expire && rng.Intn(3) == 0 { // detection times of 20 .. 600 ms
+				h[j].mult = 1 + rng.Intn(4)
+				h[j].dtxms = []int{20, 50, 150}[rng.Intn(3)]
 			}
 		}
 		hs = append(hs, h)
+		cfgs = append(cfgs, scfg{lmult: []int{1, 2, 3, 5}[rng.Intn(4)], rxms: 2})
 	}
 	res := make([][]vt.M, len(hs))
 	var wg sync.WaitGroup
@@ -428,7 +658,7 @@ func main() {
 		go func() {
 			defer wg.Done()
 			for i := range ch {
-				res[i] = runHistory(i, hs[i])
+				res[i] = runHistory(i, hs[i], cfgs[i])
 			}
 		}()
 	}
@@ -443,6 +673,15 @@ func main() {
 			defer pwg.Done()
 			pres[i] = runPair(i, r, time.Duration(*chaosMs)*time.Millisecond)
 		}(i)
+	}
+	// a real session against a well-behaved RFC peer (three scenarios, concurrently)
+	rres := make([][]vt.M, 3)
+	for sc := 0; sc < 3; sc++ {
+		pwg.Add(1)
+		go func(sc int) {
+			defer pwg.Done()
+			rres[sc] = runRfcPeer(sc, sc)
+		}(sc)
 	}
 	for i := range hs {
 		ch <- i
@@ -460,6 +699,11 @@ func main() {
 			for _, e := range t {
 				w.Emit(e)
 			}
+		}
+	}
+	for _, t := range rres {
+		for _, e := range t {
+			w.Emit(e)
 		}
 	}
 	w.Close()
